@@ -823,7 +823,9 @@ func collectGuards(b *ssa.BasicBlock) markGuards {
 }
 
 var descendingValueMethods = map[string]bool{"Index": true, "GetAttr": true, "ElementIterator": true, "AsValueMap": true, "AsValueSlice": true,
-	"AsValueSet": true, "ForEachElement": true, "Element": true, "LengthInt": false}
+	"AsValueSet": true, "ForEachElement": true, "Element": true, "LengthInt": false,
+	// attribute names taken from a value's type come from object keys at any depth
+	"Type": true}
 
 // guarded reports whether every origin of the tainted sink value is covered by a
 // mark guard that dominates the sink.
